@@ -459,6 +459,12 @@ func (e *vAofEnv) aofReadHistory(r *rand.Rand, h *vAofHistory, secondEvery int) 
 			forced++
 			e.out.stat("second-restart-forced:value-file-truncated")
 		}
+		// ... and at every cut INSIDE THE 12-BYTE HEADER of the newest file: the append-mode reopen repairs the header, and a wrong repair
+		// (e.g. of a file cut after the 8-byte magic) shows only when the file is read again (seed C08h)
+		if secondEvery > 0 && c.rc < 12 && len(h.older) == 0 {
+			forceSecond = true
+			e.out.stat("second-restart-forced:header-cut")
+		}
 		if secondEvery > 0 && (ci%secondEvery == 0 || forceSecond) && status != "panic" {
 			more := []vAofRec{vAofGenRec(r, h.now+100, 90, false), vAofGenRec(r, h.now+100, 91, true), vAofGenRec(r, h.now+100, 92, false)}
 			for i := range more { // keep them unexpired
